@@ -143,6 +143,8 @@ func (p *ProjectRunner) runProcess(config *types.ProcessConfig) {
 		withIsMain(isMain),
 		withExtraArgs(extraArgs),
 	)
+	// a new instance starts its life cycle as Pending whatever state a previous instance left behind
+	process.setState(types.ProcessStatePending)
 	p.addRunningProcess(process)
 	p.waitGroup.Add(1)
 	verifPoint(process, "spawn")
